@@ -246,11 +246,17 @@ func scenarioRead(op string) func(c *harness.Ctx) {
 				c.Fail("fragmentation", op, "eof-after-document", "%s: a stream that ends exactly after the document gives err=%v n=%d value-equal=%v (contiguous with trailer: nil error, n=%d)", rc.desc, o.err, o.n, reflect.DeepEqual(o.val, base.val), base.n)
 				return
 			}
-			// (n>0, EOF) together with the last byte of the document: recorded, not asserted
+			// (n>0, io.EOF) together with the last bytes of the complete document is a
+			// legal delivery ("callers should always process the n > 0 bytes returned
+			// before considering the error"): the result must equal the contiguous one
 			o2, pan2 := execRead(rc, &simio.FragReader{Data: rc.doc, FailAt: len(rc.doc), FailErr: io.EOF, FailWithData: true}, useBR)
 			c.Evals++
 			if pan2 == nil && o2.err == nil {
 				pWithDataAtEnd.Hit()
+			}
+			if (pan2 != nil || o2.err != nil || !reflect.DeepEqual(o2.val, base.val) || o2.n != base.n) {
+				c.Fail("fragmentation", op, "last-bytes-with-eof", "%s: the complete document delivered with io.EOF accompanying its last bytes gives err=%v panic=%v n=%d (contiguous: nil, n=%d)", rc.desc, o2.err, pan2, o2.n, base.n)
+				return
 			}
 		}
 		if rc.noTrunc {
@@ -261,7 +267,10 @@ func scenarioRead(op string) func(c *harness.Ctx) {
 		errs := []error{io.EOF, io.ErrUnexpectedEOF, simio.ErrInjected}
 		faults := []simrt.Counter{fEOF, fUEOF, fInjected}
 		for k := 0; k < n; k++ {
-			if n > 600 && tp.Choose(n/300) != 0 {
+			// long documents: sampled offsets, but always the ones next to
+			// multiples of typical buffer/batch sizes and the very last bytes
+			structured := k%256 <= 1 || k%256 == 255 || k%4096 < 24 || k >= n-3
+			if n > 600 && !structured && tp.Choose(n/300) != 0 {
 				continue
 			}
 			nVariants := 2
